@@ -671,6 +671,88 @@ def rule_R7(ctx):
     ctx.floor("R7", "window multiplier return sites", len(seen), 12)
 
 
+def rule_R8(ctx):
+    """R8: the text of an observed signature (ObservableTcp Display): same field/separator skeleton as the database text, `*` written
+    exactly when the MSS / window-scale option is absent (the getter result is matched directly - no value dependent filtering),
+    getters return the like-named observation fields"""
+    from . import C06
+    P = ctx.program
+    bs = [b for b in P.bodies.values() if b.name == "format_tcp_display" and b.crate == "huginn_net_tcp"]
+    if len(bs) != 1:
+        ctx.cannot("R8", "observable:format_tcp_display", "%d bodies named format_tcp_display in huginn_net_tcp" % len(bs))
+        return
+    b = bs[0]
+    S = T.Slicer(b, P)
+    ds, dstars, trunc = C06._skeleton_display(P, b)
+    dbb = [x for x in P.bodies.values() if x.name == "format_tcp_display" and x.crate == "huginn_net_db"]
+    if dbb:
+        ref, rstars, _ = C06._skeleton_display(P, dbb[0])
+        ctx.check(ds == ref and dstars == rstars and not trunc, "R8", "observable:skeleton", "observed and database signatures print the same skeleton `%s`" % ref,
+                  "an observed signature prints `%s` (%d wildcards) where the database form is `%s` (%d)" % (ds, dstars, ref, rstars), ctx.loc(b))
+    n = 0
+    for blk, t in b.calls():
+        if not callee_of(t).endswith("::write_str"):
+            continue
+        a = Q.call_args(b, S, blk, t)
+        lit = T.strip(a[1])
+        if not (lit[0] == "const" and lit[1] == "*"):
+            continue
+        n += 1
+        conds = Q.canon_conds(P, T.dom_conds(b, S, blk))
+        okc = False
+        which = "?"
+        extra = []
+        for c in conds:
+            if c[0] == "variant" and ((c[2] == "None" and c[3]) or (c[2] == "Some" and not c[3])):
+                calls = T.calls_in(c[1])
+                getters = [x for x in calls if x[1].endswith(("::get_mss", "::get_wscale"))]
+                if getters:
+                    which = getters[0][1].rsplit("::", 1)[-1]
+                    extra = sorted({T.short(x[1]) for x in calls if x not in getters and not T.is_identity_call(x[1])})
+                    okc = not extra
+        ctx.check(okc, "R8", "observable:star:%s" % which, "`*` written exactly when %s() is None" % which,
+                  "`*` is written for %s under more than `the option is absent` (%s): an option that is present with a particular value (e.g. ws 0) is "
+                  "rendered as missing" % (which, ",".join(extra) or "condition not recognised"), ctx.loc(b, blk))
+    ctx.floor("R8", "`*` write sites in the observed-signature Display", n, 2)
+    # getters
+    want = {"get_version": "version", "get_ittl": "ittl", "get_olen": "olen", "get_mss": "mss", "get_wsize": "wsize", "get_wscale": "wscale",
+            "get_olayout": "olayout", "get_quirks": "quirks", "get_pclass": "pclass"}
+    m = 0
+    for g in P.bodies.values():
+        if g.crate == "huginn_net_tcp" and g.name in want and (g.impl_trait or "").endswith("TcpDisplayFormat") and "ObservableTcp" in (g.impl_self or ""):
+            m += 1
+            rs = TB.return_sites(g, P)
+            flds = [[x[2] for x in T.walk(term) if x[0] == "field" and isinstance(x[2], str)] for (_, _, term, _c) in rs]
+            okg = bool(rs) and all(want[g.name] in f for f in flds)
+            ctx.check(okg, "R8", "observable:getter:" + g.name, "%s() returns matching.%s" % (g.name, want[g.name]),
+                      "%s() returns %s, not the observation's %s" % (g.name, flds, want[g.name]), ctx.loc(g))
+    ctx.floor("R8", "TcpDisplayFormat getters of ObservableTcp", m, 9)
+
+
+def rule_mtu_label(ctx):
+    """R9: an MTU is labelled with the first link type of the database that lists it: the search runs over all link entries and all
+    their values; `None` is only returned after the whole list has been walked"""
+    P = ctx.program
+    b = P.method1("SignatureMatcher", "matching_by_mtu")
+    loops = C.loops(b)
+    inloop = set()
+    for blks in loops.values():
+        inloop |= set(blks)
+    bad = []
+    nn = 0
+    for (rb, j, term, _c) in TB.return_sites(b, P):
+        tt = T.strip(term)
+        isnone = (tt[0] == "agg" and tt[3] == "None") or (tt[0] == "const" and "None" in str(tt[1])) or (tt[0] == "call" and tt[1].endswith("from_residual"))
+        if tt[0] == "agg" and tt[3] == "Some":
+            continue
+        nn += 1
+        if rb in inloop or (tt[0] == "call" and tt[1].endswith("from_residual")):
+            bad.append(rb)
+    ctx.check(not bad and len(loops) >= 2 and nn >= 1, "R9", "matching_by_mtu:exhaustive", "None only after both loops are exhausted (%d loops)" % len(loops),
+              "the MTU search gives up inside the loop (a `?` / early None on the first link type without a hit): only the first [mtu] entry can ever be reported, "
+              "every other known MTU loses its link label", ctx.loc(b, bad[0]) if bad else ctx.loc(b))
+
+
 def rule_tokens(ctx):
     """the rendered text uses the signature vocabulary: option / quirk / window / TTL tokens printed by Display are the ones the
     database parser reads back (shared with C06.R1)"""
@@ -680,6 +762,8 @@ def rule_tokens(ctx):
 
 
 def run(ctx):
+    rule_R8(ctx)
+    rule_mtu_label(ctx)
     rule_tokens(ctx)
     rule_R7(ctx)
     rule_R1_options(ctx)
